@@ -11,6 +11,15 @@ from ghedesigner.simulation import SimulationParameters
 from ghedesigner.utilities import borehole_spacing, check_bracket, eskilson_log_times, sign
 
 
+def require_candidates(coordinates_domain) -> None:
+    # a spacing window that admits no whole number of rows leaves the candidate list empty
+    if len(coordinates_domain) == 0:
+        raise ValueError(
+            "The geometric constraints admit no candidate borehole field: no whole number of rows fits \n"
+            "between the minimum and maximum spacing. Widen the spacing range or change the land size."
+        )
+
+
 class Bisection1D:
     def __init__(
         self,
@@ -39,6 +48,7 @@ class Bisection1D:
             load_years = [2019]
         self.load_years = load_years
         self.searchTracker = []
+        require_candidates(coordinates_domain)
         coordinates = coordinates_domain[0]
         current_field = field_descriptors[0]
         self.field_type = field_type
@@ -777,6 +787,7 @@ class Bisection2D(Bisection1D):
             print("Note: This routine requires a nested bisection search.")
         self.load_years = load_years
         # Get a coordinates domain for initialization
+        require_candidates(coordinates_domain_nested)
         coordinates_domain = coordinates_domain_nested[0]
         super().__init__(
             coordinates_domain,
@@ -851,6 +862,7 @@ class BisectionZD(Bisection1D):
             print("Note: This design routine currently requires several bisection searches.")
 
         # Get a coordinates domain for initialization
+        require_candidates(coordinates_domain_nested)
         coordinates_domain = coordinates_domain_nested[0]
         super().__init__(
             coordinates_domain,
